@@ -346,16 +346,19 @@ pub fn build_case<K: Kind>(case: &PlanCase) -> Result<Built<K>, String> {
         query_cap: case.query_cap,
         ..Default::default()
     }));
+    // one space object shared by all problem definitions of the case, as a caller re-using a
+    // space for several queries would do
+    #[allow(clippy::arc_with_non_send_sync)]
+    let shared_space = Arc::new(WSpace::<K> {
+        inner: space.clone(),
+        cfg: case.space.clone(),
+        rec: rec.clone(),
+    });
     let mut pds = Vec::new();
     for p in &case.problems {
         if p.start.len() != case.space.width() {
             return Err("start width".into());
         }
-        let ws = WSpace::<K> {
-            inner: space.clone(),
-            cfg: case.space.clone(),
-            rec: rec.clone(),
-        };
         let goal = WGoal::<K>::new(&p.goal, &case.space, space.clone(), rec.clone());
         let starts = if case.empty_starts || p.no_start {
             vec![]
@@ -370,7 +373,7 @@ pub fn build_case<K: Kind>(case: &PlanCase) -> Result<Built<K>, String> {
         };
         #[allow(clippy::arc_with_non_send_sync)]
         pds.push(Arc::new(ProblemDefinition {
-            space: Arc::new(ws),
+            space: shared_space.clone(),
             start_states: starts,
             goal: Arc::new(goal),
         }));
